@@ -132,7 +132,7 @@ def arrBytes (n : Nat) : Int :=
 def Stats.onAlloc (st : Stats) (k : Kind) (n : Nat) : Stats :=
   match k with
   | .arr => { st with numArrays := st.numArrays + 1, arrayBytes := st.arrayBytes + arrBytes n }
-  | .map => { st with numMappings := st.numMappings + 1 }
+  | .map => { st with numMappings := st.numMappings + 1, mapNodes := st.mapNodes + (n / 2 : Nat) }
   | .str => { st with distinctStrings := st.distinctStrings + 1, allocdStrings := st.allocdStrings + 1 }
   | .mstr => { st with distinctStrings := st.distinctStrings + 1, allocdStrings := st.allocdStrings + 1 }
   | .obj => { st with objects := st.objects + 1 }
@@ -290,14 +290,15 @@ def mstep (s : St) : Mi → M St
     match s.heap[d]? with
     | none => throw .uaf
     | some cell =>
-      if !cell.live then throw .uaf
+      -- nodes exist in mappings only (find_for_insert); anything else is outside the primitive's contract
+      if !cell.live || cell.kind != .map then throw (if !cell.live then .uaf else .misuse)
       else pure { (s.setCell d { cell with items := cell.items ++ [.num 0, .num 0] }) with
                   stats := { s.stats with mapNodes := s.stats.mapNodes + 1 } }
   | .shrink d j =>
     match s.heap[d]? with
     | none => throw .uaf
     | some cell =>
-      if !cell.live then throw .uaf
+      if !cell.live || cell.kind != .map then throw (if !cell.live then .uaf else .misuse)
       else match cell.items[2 * j]?, cell.items[2 * j + 1]? with
         | some (.num _), some (.num _) =>
           pure { (s.setCell d { cell with items := (cell.items.eraseIdx (2 * j + 1)).eraseIdx (2 * j) }) with
@@ -413,10 +414,15 @@ inductive Op where
   | sappend (d : Nat) (w : String)            -- v[d] += "w"             (EXTEND_SVALUE_STRING)
   | sjoin (d t : Nat)                         -- v[d] += v[t]            (SVALUE_STRING_JOIN)
   | sadd (d s : Nat) (w : String)             -- v[d] = v[s] + "w"       (EXTEND_SVALUE_STRING on the pushed copy)
+  | saddl (d s : Nat) (w : String)            -- v[d] = <number w> + v[s]   (SVALUE_STRING_ADD_LEFT: always a new block)
+  | sadd2 (d s t : Nat)                       -- v[d] = v[s] + v[t]         (SVALUE_STRING_JOIN on two pushed copies)
   | schar (d i : Nat) (w : String)            -- v[d][i] = 'w'           (unlink_string_svalue + byte store)
   | srange (d i j : Nat) (w : String)         -- v[d][i..j] = "w"        (unlink_string_svalue + copy_lvalue_range)
   | clones (n : Nat) | unclone (n : Nat)   -- n further clones of /c06/uobj (only their program reference is modelled)
   | unload (w : Nat)                        -- destruct + clean up the blueprint object of /c06/uobj (0) or /c06/base (1)
+  | arange (d i len n t f : Nat)            -- v[d][i .. i+len-1] = <temporary array of n copies of v[t]>; f = 1: value form x = (...)
+  | arangev (d i len t f : Nat)             -- v[d][i .. i+len-1] = v[t] (an array that other holders share)
+  | brange (d i len n : Nat)                -- the same on a buffer with a temporary buffer of n bytes
   | reclaimu                                -- reclaim_objects() in unit mode: the variables of every object are walked (check_svalue)
   | reclaim                                 -- reclaim_objects(): references to destructed objects found in object variables are released
   | newobjr (o L : Nat)                     -- clone of /c06/rc<L>: inherits ra<L> (layNa L variables) and rb<L> (layNb L variables)
@@ -617,6 +623,37 @@ def anonCount (s : St) : Nat := (anonSlots s).length
     baseline and are gone (the blueprints are roots of the model, not object cells) -/
 def unloadedCount (s : St) : Nat := (if isNumRoot s rProg then 1 else 0) + (if isNumRoot s rBase then 1 else 0)
 
+/-! ### assignment to an array range lvalue (copy_lvalue_range / assign_lvalue_range of src/interpret.c)
+
+`owner[i .. i+len-1] = rhs` with the right-hand array `fv` (cell fv, n elements) as the top value in transit; c = the
+owner's array (size elements), held by slot d.
+ * statement form (F_VOID_ASSIGN, copy_lvalue_range):
+     n = len, fv->ref == 1 : every replaced element is released, the new one MOVED in (`*dptr++ = *fptr++`), free_empty_array(fv)
+     n = len, shared       : assign_svalue element by element (a no-op where an element is assigned to itself: the array
+                             assigned to its own whole range), `fv->ref--`
+     n ≠ len               : a new array: prefix copied (counted), fv's elements moved (ref == 1) or copied (counted),
+                             suffix copied, free_array(old), owner->u.arr = new
+ * value form (F_ASSIGN, assign_lvalue_range): always copies (counted); the right-hand side stays on the stack and is
+   popped by the caller (model: released at the end). -/
+def rangeProg (c size d i len fv n dv : Nat) (moveRhs valueForm : Bool) : List Mi :=
+  if n == len then
+    (List.range n).flatMap (fun k =>
+      if moveRhs && !valueForm then [Mi.take (.item c (i + k)), .free, .take (.item fv k), .put (.item c (i + k))]
+      -- assign_svalue (dest, v) with dest == v (the array assigned to its own whole range) is a no-op
+      else if c == fv && i == 0 then []
+      else [Mi.take (.item c (i + k)), .free, .dup (.item fv k), .put (.item c (i + k))]) ++ [.free]
+  else
+    -- values in transit: [fv]; the new array dv goes on top of it
+    [Mi.alloc .arr (size - len + n) true "" 0] ++
+    (List.range i).flatMap (fun k => [Mi.dup (.item c k), .put (.item dv k)]) ++
+    (List.range n).flatMap (fun k =>
+      if moveRhs && !valueForm then [Mi.take (.item fv k), .put (.item dv (i + k))]
+      else [Mi.dup (.item fv k), .put (.item dv (i + k))]) ++
+    (if valueForm then [] else [.swap, .free]) ++
+    (List.range (size - (i + len))).flatMap (fun k => [Mi.dup (.item c (i + len + k)), .put (.item dv (i + n + k))]) ++
+    [.take (.root d), .free, .put (.root d)] ++
+    (if valueForm then [.free] else [])
+
 /-! ### reclaim_objects() (lib/efuns/reclaim_object.c)
 
 check_svalue walks the variables of every object of the object list: a destructed object is released and zeroed, arrays
@@ -707,7 +744,7 @@ def compile (s : St) (op : Op) : Option (List Mi) :=
   | .newarr d n => if d < nSlots && 0 < n then some (.alloc .arr n true "" 0 :: intoSlot d) else none
   | .newmap d => if d < nSlots then some (.alloc .map 0 true "" 0 :: intoSlot d) else none
   | .newcls d => if d < nSlots then some (.alloc .cls clsSize true "" 0 :: intoSlot d) else none
-  | .newbuf d n => if d < nSlots && 0 < n then some (.alloc .buf 0 true "" 0 :: intoSlot d) else none
+  | .newbuf d n => if d < nSlots && 0 < n then some (.alloc .buf 0 true "" n :: intoSlot d) else none   -- tag = size in bytes
   | .newstr d w => if d < nSlots then some (.share w :: intoSlot d) else none
   | .newmstr d w => if d < nSlots then some (.alloc .mstr 0 true w 0 :: intoSlot d) else none
   | .newfun d o t =>
@@ -879,7 +916,11 @@ def compile (s : St) (op : Op) : Option (List Mi) :=
     -- pointer owned by o).  destruct_object(o) does NOT remove it (sentence->ob is 0), only the next input does.
     match uobjCell s o with
     | some (_, _) =>
-      if a < nSlots && b < nSlots && isNumRoot s rInput then
+      if a < nSlots && b < nSlots && !isNumRoot s rInput then
+        -- an input_to is already pending: set_call() refuses; the function pointer made for the callback (one more
+        -- holder of the owner) and the sentence are released again, the arguments have not been captured yet
+        some [.alloc .fn 2 false "" 0, .dup (.root (rHandle o)), .put (.item fresh 1), .free]
+      else if a < nSlots && b < nSlots && isNumRoot s rInput then
         some [.alloc .arr 2 false "" 0, .dup (.root a), .put (.item fresh 0), .dup (.root b), .put (.item fresh 1),
               .alloc .fn 2 false "" 0, .dup (.root (rHandle o)), .put (.item (fresh + 1) 1),
               .alloc .sent 2 false "" 0, .swap, .put (.item (fresh + 2) 1), .swap, .put (.item (fresh + 2) 0),
@@ -890,7 +931,9 @@ def compile (s : St) (op : Op) : Option (List Mi) :=
     -- the same with the callback icb2 (tag 1 of the sentence): when the input arrives it calls input_to("icb", 0, b, a)
     match uobjCell s o with
     | some (_, _) =>
-      if a < nSlots && b < nSlots && isNumRoot s rInput then
+      if a < nSlots && b < nSlots && !isNumRoot s rInput then
+        some [.alloc .fn 2 false "" 0, .dup (.root (rHandle o)), .put (.item fresh 1), .free]
+      else if a < nSlots && b < nSlots && isNumRoot s rInput then
         some [.alloc .arr 2 false "" 0, .dup (.root a), .put (.item fresh 0), .dup (.root b), .put (.item fresh 1),
               .alloc .fn 2 false "" 0, .dup (.root (rHandle o)), .put (.item (fresh + 1) 1),
               .alloc .sent 2 false "" 1, .swap, .put (.item (fresh + 2) 1), .swap, .put (.item (fresh + 2) 0),
@@ -914,8 +957,21 @@ def compile (s : St) (op : Op) : Option (List Mi) :=
               | none => false)
             | _ => false)
           | none => false
+        -- an argument that is a destructed object: the callback's local is released and zeroed when it is pushed
+        -- (the interpreter never hands out destructed objects), so the new input_to captures 0
+        let deadArg : Nat → Bool := fun k => match s.heap[vs]? with
+          | some vsc => (match (vsc.items[k]? : Option Val) with
+            | some (Val.ptr a) => (match s.heap[a]? with
+              | some ac => ac.kind == .obj && ac.destructed
+              | none => false)
+            | _ => false)
+          | none => false
         let rearm := if scell.tag == 1 && ownerAlive then
-            [Mi.alloc .arr 2 false "" 0, .dup (.root (top + 1)), .put (.item fresh 0), .dup (.root top), .put (.item fresh 1),
+            [Mi.alloc .arr 2 false "" 0] ++
+            (if deadArg 1 then [Mi.take (.root (top + 1)), .free] else [Mi.dup (.root (top + 1)), .put (.item fresh 0)]) ++
+            (if deadArg 0 then [Mi.take (.root top), .free] else [Mi.dup (.root top), .put (.item fresh 1)]) ++
+            [
+
              .alloc .fn 2 false "" 0, .dup (.item fnc 1), .put (.item (fresh + 1) 1),
              .alloc .sent 2 false "" 0, .swap, .put (.item (fresh + 2) 1), .swap, .put (.item (fresh + 2) 0),
              .put (.root rInput)]
@@ -953,6 +1009,27 @@ def compile (s : St) (op : Op) : Option (List Mi) :=
               [.take (.root d), .free, .take (.root top), .put (.root d), .popRoot])
       else none
     | none => none
+  | .saddl d a w =>
+    match strSlot s a with
+    | some (_, cell) =>
+      if d < nSlots && a < nSlots then
+        -- the string operand is pushed, a new block is built from the number's text and it, the pushed copy released
+        some [.pushRoot, .dup (.root a), .put (.root top), .alloc .mstr 0 true (w ++ cell.text) 0,
+              .take (.root top), .free, .popRoot, .take (.root d), .free, .put (.root d)]
+      else none
+    | none => none
+  | .sadd2 d a t =>
+    match strSlot s a, strSlot s t with
+    | some (c, cell), some (ct, tcell) =>
+      if d < nSlots && a < nSlots && t < nSlots then
+        -- both operands are pushed copies: the counter of the left block is at least 2 when the join decides
+        let r := incRef cell.kind (if ct == c then incRef cell.kind cell.ref 1 else cell.ref) 1
+        some ([.pushRoot, .dup (.root a), .put (.root top), .pushRoot, .dup (.root t), .put (.root (top + 1))] ++
+              (if NV.Gen.C06.joinInPlace (cell.kind == .mstr) r then [Mi.inplace c] else []) ++
+              [.alloc .mstr 0 true (cell.text ++ tcell.text) 0, .take (.root (top + 1)), .free, .popRoot,
+               .take (.root top), .free, .popRoot, .take (.root d), .free, .put (.root d)])
+      else none
+    | _, _ => none
   | .schar d i w =>
     match strSlot s d with
     | some (c, cell) =>
@@ -986,6 +1063,34 @@ def compile (s : St) (op : Op) : Option (List Mi) :=
     let sl := anonSlots s
     if sl.length < n || !s.dlist.isEmpty then none
     else some ((sl.take n).flatMap (fun (p, i) => [Mi.take (.item p i), Mi.free]))
+  | .arange d i len n t f =>
+    match slotCell s d with
+    | some (c, cell) =>
+      if d < nSlots && t < nSlots && cell.live && cell.kind == .arr && i + len ≤ cell.items.length && 0 < n && f < 2 then
+        -- the right-hand side: a function result nobody else holds (counter 1), in a stack slot
+        some ([.alloc .arr n false "" 0, .fillFrom fresh (.root t)] ++ rangeProg c cell.items.length d i len fresh n (fresh + 1) true (f == 1))
+      else none
+    | none => none
+  | .arangev d i len t f =>
+    match slotCell s d, slotCell s t with
+    | some (c, cell), some (tc, tcell) =>
+      if d < nSlots && t < nSlots && d != t && cell.live && cell.kind == .arr && i + len ≤ cell.items.length
+          && tcell.live && tcell.kind == .arr && f < 2 then
+        -- the right-hand side is pushed: one more holder, so its counter is not 1
+        some ([.dup (.root t)] ++ rangeProg c cell.items.length d i len tc tcell.items.length fresh false (f == 1))
+      else none
+    | _, _ => none
+  | .brange d i len n =>
+    match slotCell s d with
+    | some (_, cell) =>
+      if d < nSlots && cell.live && cell.kind == .buf && i + len ≤ cell.tag && 0 < n then
+        -- bytes are not counted values: same length = memcpy; other length = a new buffer replaces the owner's
+        -- (free_buffer of the old one); the temporary right-hand buffer is released
+        some ([.alloc .buf 0 false "" n] ++
+              (if n == len then [] else [.alloc .buf 0 true "" (cell.tag - len + n), .take (.root d), .free, .put (.root d)]) ++
+              [.free])
+      else none
+    | none => none
   | .reclaimu => some (reclaimProg s false)
   | .reclaim =>
     -- lpc mode: the same walk; the interpreter object's variables `v` (slots) and `obs` (handles) are object variables
